@@ -27,6 +27,7 @@ type vrtOPRGrader struct {
 	version uint8
 	height  int32
 	prev    []string
+	hashes  [][]byte
 	added   [][][]byte // ext ids of every record handed over
 	verdict grader.GradedBlock
 }
@@ -36,6 +37,7 @@ func (g *vrtOPRGrader) Version() uint8               { return g.version }
 func (g *vrtOPRGrader) GetPreviousWinners() []string { return g.prev }
 func (g *vrtOPRGrader) AddOPR(entryhash []byte, extids [][]byte, content []byte) error {
 	g.added = append(g.added, extids)
+	g.hashes = append(g.hashes, entryhash)
 	return nil
 }
 func (g *vrtOPRGrader) Grade() grader.GradedBlock                 { return g.verdict }
@@ -47,6 +49,7 @@ type vrtSPRGrader struct {
 	version uint8
 	height  int32
 	added   [][][]byte
+	hashes  [][]byte // entry hashes in the order they were handed over
 	verdict graderStake.GradedBlock
 }
 
@@ -55,6 +58,7 @@ func (g *vrtSPRGrader) Version() uint8               { return g.version }
 func (g *vrtSPRGrader) GetPreviousWinners() []string { return nil }
 func (g *vrtSPRGrader) AddSPR(entryhash []byte, extids [][]byte, content []byte) error {
 	g.added = append(g.added, extids)
+	g.hashes = append(g.hashes, entryhash)
 	return nil
 }
 func (g *vrtSPRGrader) Grade() graderStake.GradedBlock                 { return g.verdict }
@@ -91,11 +95,16 @@ func VerifGradeGlue() {
 	ctx := context.Background()
 	staking := vrt.Choose("chain", 2) == 1
 	height := uint32(vrt.Range("height", 206422, 400000))
-	// holders: H1 holds PEG, H2 holds none
+	// holders: H1 holds PEG, H2 holds none - or (two top holders) some as well
 	H1, H2 := vrtAddr(0xA1), vrtAddr(0xB2)
+	h2holds := vrt.Param("twoholders", 1) == 1 && vrt.Choose("h2holds", 2) == 1
 	tx0, _ := db.Begin()
 	vrtSetBalance(tx0, H1, fat2.PTickerPEG, vrt.URange("peg1", 1, vrtMaxBal/4))
-	vrtSetBalance(tx0, H2, fat2.PTickerPEG, 0)
+	if h2holds {
+		vrtSetBalance(tx0, H2, fat2.PTickerPEG, vrt.URange("peg2", 1, vrtMaxBal/4))
+	} else {
+		vrtSetBalance(tx0, H2, fat2.PTickerPEG, 0)
+	}
 	if err := tx0.Commit(); err != nil {
 		panic(err)
 	}
@@ -152,25 +161,38 @@ func VerifGradeGlue() {
 		sg.version, sg.height = version, h
 		return sg, nil
 	})
+	// the graders are order-sensitive (first record per address, first 50 records, stable sorts):
+	// records must reach them in chain order, whatever order a map iteration takes (order oracle)
+	vrt.Permute(true)
 	if staking {
 		vrt.Cover("staking")
 		_, err := d.GradeS(ctx, eb)
+		vrt.Permute(false)
 		vrt.Assert("C11.staking-grading-glue-succeeds", err == nil)
 		vrt.Assert("C11.staking-grader-version-by-height", sg.version == vrtSpecSPRVersion(height) && sg.height == int32(height))
 		// only records whose declared staker is a top PEG holder are graded
 		want := 0
+		var wantHashes [][]byte
 		for i := 0; i < n; i++ {
-			if nIDs[i] >= 2 && declared[i] == 0 {
+			if nIDs[i] >= 2 && (declared[i] == 0 || (declared[i] == 1 && h2holds)) {
 				want++
+				wantHashes = append(wantHashes, eb.Entries[i].Hash[:])
 			}
 		}
 		vrt.Assert("C11.only-top-holder-records-are-graded", len(sg.added) == want)
 		for _, ex := range sg.added {
-			vrt.Assert("C11.only-top-holder-records-are-graded", len(ex) >= 2 && string(ex[1]) == string(H1[:]))
+			vrt.Assert("C11.only-top-holder-records-are-graded", len(ex) >= 2 && (string(ex[1]) == string(H1[:]) || (h2holds && string(ex[1]) == string(H2[:]))))
+		}
+		for i := 0; i < len(sg.hashes) && i < len(wantHashes); i++ {
+			vrt.Assert("C01.records-reach-the-grader-in-chain-order", string(sg.hashes[i]) == string(wantHashes[i]))
 		}
 	} else {
 		vrt.Cover("mining")
 		_, err := d.Grade(ctx, eb)
+		vrt.Permute(false)
+		for i := 0; i < len(og.hashes) && i < n; i++ {
+			vrt.Assert("C01.records-reach-the-grader-in-chain-order", string(og.hashes[i]) == string(eb.Entries[i].Hash[:]))
+		}
 		vrt.Assert("C11.mining-grading-glue-succeeds", err == nil)
 		vrt.Assert("C11.mining-grader-version-by-height", og.version == vrtSpecOPRVersion(height) && og.height == int32(height))
 		vrt.Assert("C11.every-opr-entry-is-offered-to-the-grader", len(og.added) == n)
